@@ -32,6 +32,27 @@ Theorem C17_all_recorded_single :
 Proof. exact writers_atomic_single. Qed.
 Print Assumptions C17_all_recorded_single.
 
+(** Crash points: at every instant of every run with the atomic write path - some threads
+    parked inside a write, queued behind it or already returned - every write acknowledged so
+    far is within what a recovery from the cached head ([_localHeads]) as it is at that instant
+    restores.  (The harness inspects the cached heads of the real store after every scheduled
+    step and reports an acknowledged entry that they do not cover.) *)
+Theorem C17_crash_safe_at_every_instant :
+  forall counts sched,
+    let s := wrun true sched (winitc counts) in
+    forall e, In e (returned s) -> (1 <= e <= recovered s)%nat.
+Proof. exact writers_crash_safe. Qed.
+Print Assumptions C17_crash_safe_at_every_instant.
+
+(** Without the critical section there is a run and an instant at which an acknowledged entry
+    is not covered by the cached head.  Regression witness. *)
+Theorem C17_refuted_crash :
+  exists counts sched,
+    let s := wrun false sched (winitc counts) in
+    exists e, In e (returned s) /\ (recovered s < e)%nat.
+Proof. exact writers_refuted_crash. Qed.
+Print Assumptions C17_refuted_crash.
+
 (** The pinned commit (only the append is atomic) can persist heads out of order: there is
     a schedule after which every writer has returned but recovery from the cached head
     restores fewer entries than were acknowledged (witness: two writers,
